@@ -102,6 +102,7 @@ class Run(object):
         self.chooser = None
         self.n_stop = self.n_conc = self.n_raise = self.n_uec = self.n_run2 = 0
         self.outcome = None
+        self.start_idx = None
 
     # ------------------------------------------------------------------ recording
     def log(self, **kw):
@@ -115,6 +116,8 @@ class Run(object):
         self.frozen = True
 
     def tick(self):
+        if self.start_idx is None or self.outcome is not None:
+            return          # run() has not made its first step yet / has ended: that is what `pre` / `post` are for
         self.ticks += 1
         e = self.timed.pop(self.ticks, None)
         if e is not None:
@@ -328,50 +331,68 @@ class Run(object):
         # events before run() is called (a loop must exist for Application.stop -> nothing, setc, uec)
         for e in self.pre:
             self.fire(e)
-        start = len(self.ev)
         self.started = True
-        kind, val = vloop.run(lambda: app.run(), self.env_step, tick_hook=self.tick if self.timed else None,
-                              before_cleanup=self._freeze)
-        self._classify(kind, val, start)
-        if self.outcome in ('ret', 'rejected'):
-            for e in self.post:
-                self.fire(e)
-        return kind, val
 
-    def _classify(self, kind, val, start):
-        self.frozen = False
-        self.finished = True
-        if kind == 'exc' and isinstance(val, Livelock):
-            kind = 'livelock'
-        began = any(e['e'] == 'pbegin' for e in self.ev[start:])
-        if kind == 'exc' and isinstance(val, RuntimeError) and not began and 'not ready' in str(val):
-            self.ev.insert(start, dict(e='run', ok=False))
-            self.outcome = 'rejected'
-            return
-        self.ev.insert(start, dict(e='run', ok=True))
-        if kind == 'ok':
+        @asyncio.coroutine
+        def main():
+            # same task step as the first step of Application.run(): marks where `run` belongs in the recording;
+            # the outcome is logged in the task step in which run() ends (a stop injected after that comes later)
+            self.start_idx = len(self.ev)
+            try:
+                val = yield from app.run()
+            except Livelock:
+                raise
+            except Exception as error:   # noqa
+                began = any(e['e'] == 'pbegin' for e in self.ev[self.start_idx:])
+                if isinstance(error, RuntimeError) and not began and 'not ready' in str(error):
+                    self.ev.insert(self.start_idx, dict(e='run', ok=False))
+                    self.outcome = 'rejected'
+                else:
+                    self.ev.insert(self.start_idx, dict(e='run', ok=True))
+                    self.log(e='retx', detail='%s: %s' % (type(error).__name__, error))
+                    self.outcome = 'crash'
+                return None
+            self.ev.insert(self.start_idx, dict(e='run', ok=True))
             if isinstance(val, int) and not isinstance(val, bool) and 0 <= val < 1000:
                 self.log(e='ret', code=val)
                 self.outcome = 'ret'
             else:
                 self.log(e='retx', detail='run() returned %r' % (val,))
                 self.outcome = 'crash'
-        elif kind == 'exc':
-            self.log(e='retx', detail='%s: %s' % (type(val).__name__, val))
-            self.outcome = 'crash'
-        elif kind == 'hang' and self.pending_order:
+            return val
+
+        kind, val = vloop.run(main, self.env_step, tick_hook=self.tick if self.timed else None,
+                              before_cleanup=self._freeze)
+        self._classify(kind, val)
+        if self.outcome in ('ret', 'rejected'):
+            for e in self.post:
+                self.fire(e)
+        return kind, val
+
+    def _classify(self, kind, val):
+        self.frozen = False
+        self.finished = True
+        if self.outcome is not None:
+            return
+        if kind == 'exc' and isinstance(val, Livelock):
+            kind = 'livelock'
+        if self.start_idx is not None:
+            self.ev.insert(self.start_idx, dict(e='run', ok=True))
+        if kind == 'hang' and self.pending_order:
             # the environment stopped answering while a task body was pending: not an observation of the code
             self.outcome = 'abandoned'
-        else:
+        elif kind in ('hang', 'livelock'):
             cp = getattr(self.app, '_current_pipeline', None)
             self.log(e='hang', busy=(kind == 'livelock'),
                      cur=(self.pipes.index(cp) + 1) if cp in self.pipes else 0,
                      conc=[pl.concurrency for pl in self.pipes], pending=len(self.pending_order))
             self.outcome = 'hang' if kind == 'hang' else 'livelock'
+        else:
+            raise RuntimeError('appseries_exec: unexpected end of run: %r %r' % (kind, val))
 
     def header(self):
         c = self.cfg
-        return {'skp': [bool(x) for x in c['skp']], 'reg': [bool(x) for x in c['reg']], 'kk': list(c['kk']),
+        return {'np': self.NP, 'tt': self.T, 'skp': [bool(x) for x in c['skp']], 'reg': [bool(x) for x in c['reg']], 'kk': list(c['kk']),
                 'pc0': list(c['pc0'])}
 
 
